@@ -30,8 +30,10 @@ fn sop() -> BoxedStrategy<SOp> {
 fn c10_strategy(ctx: &Ctx) -> BoxedStrategy<SeqCase> {
   let max = ctx.tier.pick(12, 20);
   let kinds = prop::sample::select(vec![HotKind::Subject, HotKind::Behavior(9), HotKind::Replay, HotKind::Async]);
-  (kinds, prop::collection::vec(sop(), 1..=max), any::<bool>(), 0u64..4)
-    .prop_map(|(kind, ops, via_op, hash_seed)| {
+  // optionally observer 0 subscribes observer 2 from inside its n-th next callback
+  let nested = prop::option::weighted(0.3, 0usize..3);
+  (kinds, prop::collection::vec(sop(), 1..=max), any::<bool>(), nested, 0u64..4)
+    .prop_map(|(kind, ops, via_op, nested, hash_seed)| {
       let mut actions = Vec::new();
       let mut terminated = false;
       let mut subscribed = [false; 3];
@@ -75,7 +77,22 @@ fn c10_strategy(ctx: &Ctx) -> BoxedStrategy<SeqCase> {
       }
       root.renumber();
       SeqCase {
-        case: Case { root, hots: vec![kind], hot_illformed: false, conn: None, recorders: vec![vec![], vec![], vec![]], actions },
+        case: Case {
+          root,
+          hots: vec![kind.clone()],
+          hot_illformed: false,
+          conn: None,
+          recorders: vec![
+            match (nested, &kind) {
+              // (an AsyncSubject observer only hears from the subject on completion)
+              (Some(at), k) if *k != HotKind::Async => vec![Reaction { at, what: React::Subscribe(2) }],
+              _ => vec![],
+            },
+            vec![],
+            vec![],
+          ],
+          actions,
+        },
         hash_seed,
       }
     })
